@@ -733,6 +733,12 @@ func runC08(w *W) {
 	w.Logf("schema:\n%s", sch.Text)
 
 	cv := p2j.NewBinaryConv(opts)
+	if t.Chance(1, 4, "reopt.use") {
+		// the converter starts life with other options and gets these by SetOptions
+		cv = p2j.NewBinaryConv(otherOpts(t, opts))
+		cv.SetOptions(opts)
+		w.Count("converter_reconfigured_by_SetOptions")
+	}
 	strict := p2j.NewBinaryConv(conv.Options{DisallowUnknownField: true, Int642String: opts.Int642String})
 	w.Logf("conv.Options: Int642String=%v DisallowUnknownField=%v  flavour=%s bufsize=%d", opts.Int642String, opts.DisallowUnknownField, flavour, conv.DefaultBufferSize)
 	ctx := context.Background()
